@@ -270,7 +270,7 @@ def r16_5(ctx):
             ctx.bad("R16.5", fi.module, fi.qual, f"{nm}(<not the message key>)", f"copy() reads {nm} with `{v[0]}` instead of the message key: the bytes/date/flags/UID of one copied message come from different messages (a COPY does not return its source's bytes)", v[1].lineno)
     # write side: messages added in the order read; utime(mtime) preserved; sequences carried over
     for pat, what in (
-        ("copy_msgs.append((msg_path, msg_seqs, mtime))", "per-message record = (bytes file, sequences, mtime)"),
+        ("msg_seqs = self.msg_sequences(msg_key)\ncopy_msgs.append((msg_path, msg_seqs, mtime))", "per-message record = (bytes file, sequences of that key, mtime)"),
         ("for msg_path2, sequences, mtime2 in copy_msgs:\n    ...", "messages are written in the order they were read"),
         ("await utime(mbox_msg_path(dst_mbox.mailbox, msg_key2), (mtime2, mtime2))", "internal date (mtime) carried to the copy"),
         ("for sequence in sequences:\n    dest_mbox_seqs[sequence].add(msg_key2)", "flags (sequences) carried to the copy"),
